@@ -1,4 +1,5 @@
 """C03 - total functions: panic census with re-proved discharges (F9)."""
+import re
 import guards
 import pattern as P
 import shapes
@@ -194,6 +195,32 @@ def pinned_value(an, e, bb):
     return None
 
 
+def is_enr_ref(t):
+    return t.get("k") == "ref" and "Enr<" in (t.get("s") or "")
+
+
+def takes_mut_self(f):
+    return bool(f.inputs) and f.inputs[0].get("k") == "ref" and bool(f.inputs[0].get("mut"))
+
+
+def scaled_len(x, consts):
+    """x = ceil(len(..) / d) or len(..) / d with a constant d >= 1, to be multiplied by a constant c <= 2d"""
+    x = strip(x)
+    d = None
+    inner = None
+    if x.k == "call" and x.a[0].name == "div_ceil" and x.a[0].krate in ("core", "std") and len(x.a[1]) == 2:
+        d = shapes.fold_const(x.a[1][1])
+        inner = strip(x.a[1][0])
+    elif x.k == "binop" and x.a[0] == "Div":
+        d = shapes.fold_const(x.a[2])
+        inner = strip(x.a[1])
+    if d is None or d < 1 or inner is None or len(consts) != 1:
+        return False
+    if not (inner.k == "call" and inner.a[0].name == "len" and inner.a[0].krate in ("core", "alloc", "std", "bytes")):
+        return False
+    return 0 <= consts[0] <= 2 * d if d == 1 else 0 <= consts[0] < 2 * d
+
+
 def fold_accumulator(ctx, f, lengthy):
     """closure f is only used as the step of `Iterator::fold` calls that run over
     a record's `content` and start from a sum of in-memory lengths: its second
@@ -251,6 +278,17 @@ def discharge(ctx, f, an, site):
                     ls_ = [x for x, c_ in zip(es_, cs_) if c_ is None]
                     if len(ls_) == 1 and any(c_ is not None and 0 <= c_ <= 2 for c_ in cs_) and ls_[0].k == "call" and ls_[0].a[0].name == "len" and ls_[0].a[0].krate in ("core", "alloc", "std", "bytes"):
                         return ("lib", "at most 2 x the length of an in-memory slice (<= isize::MAX) cannot overflow usize")
+                    if len(ls_) == 1 and scaled_len(ls_[0], [c_ for c_ in cs_ if c_ is not None]):
+                        return ("lib", "c * ceil(len / d) with c <= 2d on the length of an in-memory slice (<= isize::MAX) cannot overflow usize")
+                    # a small constant times the length of the record's own encoding (at most 300 bytes for every record handed out: C09)
+                    if f.kind in ("AssocFn",) and len(ls_) == 1 and any(c_ is not None and 0 <= c_ <= 2 ** 16 for c_ in cs_) and ls_[0].k == "call" and ls_[0].a[0].name == "len" and ls_[0].a[1] and f.inputs and is_enr_ref(f.inputs[0]):
+                        from rules.emit import is_encoding_of_self
+                        try:
+                            enc_ = is_encoding_of_self(ctx, f, an, ls_[0].a[1][0])
+                        except Exception:
+                            enc_ = False
+                        if enc_ and not takes_mut_self(f):
+                            return ("inv", "the length of the record's own encoding is at most MAX_ENR_SIZE for every record the library hands out (C09): a small multiple cannot overflow")
                 if st.rv.j["op"].startswith("Add"):
                     # sums of in-memory lengths and small constants cannot overflow usize
                     def lengthy(o):
@@ -271,9 +309,18 @@ def discharge(ctx, f, an, site):
                             ops_ = [strip(e2.a[0].a[1]), strip(e2.a[0].a[2])]
                             cs_ = [shapes.fold_const(x) for x in ops_]
                             rest_ = [x for x, c_ in zip(ops_, cs_) if c_ is None]
+                            if len(rest_) == 1 and scaled_len(rest_[0], [c_ for c_ in cs_ if c_ is not None]):
+                                return True  # the size of a base64 rendering: 4 * ceil(len / 3)
                             return len(rest_) == 1 and any(c_ is not None and 0 <= c_ <= 2 for c_ in cs_) and rest_[0].k == "call" and rest_[0].a[0].name == "len"
                         if e2.k == "field" and e2.a[1] == "0" and e2.a[0].k == "binop" and e2.a[0].a[0].startswith("Add"):
                             return all(lengthy_e(x) for x in (e2.a[0].a[1], e2.a[0].a[2]))
+                        # a quotient of something that did not overflow: ceil(x / d) <= x for d >= 1 (x itself is a census site)
+                        if e2.k == "call" and e2.a[0].name == "div_ceil" and e2.a[0].krate in ("core", "std") and len(e2.a[1]) == 2 and (shapes.fold_const(e2.a[1][1]) or 0) >= 2:
+                            return True
+                        if e2.k == "binop" and e2.a[0] == "Div" and (shapes.fold_const(e2.a[2]) or 0) >= 2:
+                            return True
+                        if e2.k == "call" and e2.a[0].name == "len" and e2.a[1] and strip(e2.a[1][0]).k == "const":
+                            return True
                         if e2.k == "field" and e2.a[1] == "payload_length" and header_source(e2.a[0])[0] is not None:
                             return True  # a successfully decoded header's payload fits in the buffer it was read from
                         if e2.k == "call" and e2.a[0].name == "sum" and (e2.a[0].trait or "").endswith("Iterator") and "usize" in (e2.a[0].full or "") and any(x.k == "field" and x.a[1] == "content" for x in e2.walk()):
@@ -313,6 +360,13 @@ def discharge(ctx, f, an, site):
                     return ("guard", "dominated by %s() == %s on the same value" % (cs.a[0].name, "true" if cs.a[0].name in ("is_some", "is_ok") else "false"))
             if cs.k == "discr" and repr(strip(cs.a[0])) == repr(x) and allowed <= {"Some", "Ok"}:
                 return ("guard", "dominated by a match arm Some/Ok on the same value")
+        # <[u8; N]>::try_from(slice) under a guard that pins the slice's length to N
+        if x.k == "call" and x.a[0].name in ("try_from", "try_into") and x.a[1]:
+            m_ = re.search(r"\[u8; (\d+)\]", x.a[0].full or "")
+            if m_ and "TryFromSliceError" in (c.full or "") + (c.fn or ""):
+                n_ = pinned_len(an, strip(x.a[1][0]), bb)
+                if n_ is not None and n_ == int(m_.group(1)):
+                    return ("guard", "the slice converted to [u8; %d] has exactly that length on this path" % n_)
         # String::from_utf8(const ascii)
         if x.k == "call" and x.a[0].name == "from_utf8" and x.a[1]:
             src = x.a[1][0]
